@@ -46,7 +46,8 @@ GenCands(f) ==
       [] f.kind = "list" /\ f.item.kind = "schema" ->
             {ListV(<<GD1(<<"p">>, IntV(1))>>), ListV(<<GD1(<<"p">>, IntV(0))>>), ListV(<<IntV(1)>>), ListV(<<>>)}
       [] f.kind = "list"     -> {ListV(<<IntV(2), gs(<<"3">>)>>), ListV(<<IntV(-1)>>), gs(<<"x">>), ListV(<<>>)}
-      [] f.kind = "dict"     -> {GD1(<<"k">>, IntV(1)), GD1(<<"k">>, gs(<<"x">>)), ListV(<<>>)}
+      [] f.kind = "dict"     -> {GD1(<<"k">>, IntV(1)), GD1(<<"k">>, gs(<<"x">>)), GD1(<<"m">>, IntV(7)), DictV(<<>>), ListV(<<>>)}
+      [] f.kind = "challenge" -> {gs(<<"h", "u", "n", "t", "e", "r">>), IntV(1), NoneV}
       [] f.kind = "schema"   ->
             LET k1 == f.fields[1][1]  f1 == f.fields[1][2]
                 inner == IF f1.kind = "schema" THEN {GD1(KeyChars[f1.fields[1][1]], IntV(1))} ELSE GenCands(f1) IN
@@ -78,7 +79,8 @@ GenListOps(Sx) ==
         IF FieldOf(SchemaAt(Sx, pk[1]), pk[2]).item.kind = "schema"
         THEN {[m |-> "append", v |-> GD1(<<"p">>, IntV(3))], [m |-> "append", v |-> GD1(<<"p">>, IntV(0))],
               [m |-> "append", v |-> DictV(<<>>)], [m |-> "insert", i |-> 0, v |-> GD1(<<"p">>, IntV(4))],
-              [m |-> "item_set", i |-> 0, k |-> "p", v |-> IntV(8)], [m |-> "item_set", i |-> 0, k |-> "p", v |-> IntV(0)], [m |-> "pop"]}
+              [m |-> "item_set", i |-> 0, k |-> "p", v |-> IntV(8)], [m |-> "item_set", i |-> 0, k |-> "p", v |-> IntV(0)], [m |-> "pop"],
+              [m |-> "item_reset", i |-> 0, k |-> "p"], [m |-> "setitem_same", i |-> 0]}
         ELSE {[m |-> "append", v |-> IntV(4)], [m |-> "append", v |-> IntV(-1)], [m |-> "append", v |-> gs(<<"5">>)],
               [m |-> "insert", i |-> 0, v |-> IntV(7)], [m |-> "setitem", i |-> 0, v |-> IntV(-9)], [m |-> "setitem", i |-> 5, v |-> IntV(1)],
               [m |-> "extend", vs |-> <<IntV(6), IntV(-1), IntV(8)>>], [m |-> "setslice_all", vs |-> <<IntV(3), gs(<<"x">>)>>],
@@ -88,7 +90,7 @@ GenDictOps(Sx) ==
         {[m |-> "setitem", k |-> gs(<<"k">>), v |-> IntV(1)], [m |-> "setitem", k |-> gs(<<"k">>), v |-> gs(<<"x">>)],
          [m |-> "update", kv |-> << <<gs(<<"a">>), IntV(1)>>, <<gs(<<"b">>), gs(<<"x">>)>> >>],
          [m |-> "ior", kv |-> << <<gs(<<"c">>), gs(<<"3">>)>> >>], [m |-> "setdefault", k |-> gs(<<"k">>), v |-> IntV(5)],
-         [m |-> "pop", k |-> gs(<<"K">>)], [m |-> "clear"]}]
+         [m |-> "pop", k |-> gs(<<"K">>)], [m |-> "pop", k |-> gs(<<"k">>)], [m |-> "clear"]}]
 
 SetCandsNow == IF Generic THEN GenSetCands(S) ELSE SetCands
 TreesNow    == IF Generic THEN GenTrees(S) ELSE Trees
@@ -325,8 +327,9 @@ C11_ReturnImplies ==
 C11_CollectIffRaise ==
     \A n \in Names :
         (ev.op = "ValidateCollect" /\ ev.n = n) => (ev.out = "errors" <=> ~ValidateCfg(S, cfgs[n], <<>>).ok)
-\* items of configuration lists are held to the rule when they are loaded or inserted:
-\* every item satisfies its schema's required fields at all times
+\* items of configuration lists are held to the rule when they are loaded or inserted: after a
+\* load / validation that returns every item satisfies its schema's required fields, and every
+\* configuration a list operation inserted (or inserted again) passes its schema's validation
 RECURSIVE ItemsHeld(_, _)
 ItemsHeld(Sx, c) ==
     \A i \in DOMAIN Sx.fields :
@@ -336,7 +339,25 @@ ItemsHeld(Sx, c) ==
         ELSE IF f.kind = "list" /\ IsSchema(f.item) /\ c.vals[k].t = "list"
              THEN \A j \in DOMAIN c.vals[k].l : RequiredSet(f.item, c.vals[k].l[j])
         ELSE TRUE
-C11_ItemsHeld == \A n \in Names : Built(n) => ItemsHeld(S, cfgs[n])
+C11_ItemsHeld ==
+    \A n \in Names : (Built(n) /\ ev.op \in {"Init", "Load", "Ctor", "CopyTree", "RoundTrip"} /\ ("n" \in DOMAIN ev => ev.n = n) /\ ("out" \in DOMAIN ev => ev.out = "ok"))
+                        => ItemsHeld(S, cfgs[n])
+InsertedIdx(o, nOld, nNew) ==
+    CASE o.m = "append" -> {nNew}
+      [] o.m = "insert" -> {ClampIns(o.i, nOld) + 1}
+      [] o.m \in {"setitem", "setitem_same"} -> {(IF o.i < 0 THEN nOld + o.i ELSE o.i) + 1}
+      [] o.m \in {"extend", "iadd", "extend_from"} -> (nOld + 1)..nNew
+      [] o.m \in {"setslice_all", "slice_from"} -> 1..nNew
+      [] OTHER -> {}
+A_ItemsInserted ==
+    (ev'.op = "COp" /\ ev'.out = "ok" /\ HasField(SchemaAt(S, ev'.p), ev'.k)) =>
+        LET f == FieldOf(SchemaAt(S, ev'.p), ev'.k)
+            old == CfgAt(cfgs[ev'.n], ev'.p).vals[ev'.k]
+            new == CfgAt(cfgs'[ev'.n], ev'.p).vals[ev'.k] IN
+        (f.kind = "list" /\ IsSchema(f.item) /\ old.t = "list" /\ new.t = "list") =>
+            \A j \in InsertedIdx(ev'.o, Len(old.l), Len(new.l)) :
+                j \in DOMAIN new.l => ValidateCfg(f.item, new.l[j], <<>>).ok
+C11_ItemsInserted == [][A_ItemsInserted]_vars
 
 (* C15: every rejection of a value for a declared field is the library's validation error
    and names a declared path below the assignment's target *)
